@@ -27,14 +27,17 @@ pub struct Fam {
     /// Some(n): enumerated family with n cases (quick, thorough) instead of random bytes
     pub enumerated: Option<(u64, u64, bool)>,
     pub cfg: fn() -> DiffCfg,
+    /// Some((render, run)): the family is judged by a validity predicate of its own instead of the
+    /// reference interpreter
+    pub direct: Option<(fn(&[u8]) -> String, fn(&[u8], &mut CaseCtx) -> Verdict)>,
 }
 
 impl Fam {
     pub fn profile(name: &'static str, p: Profile, quick: u64, thorough: u64, max_len: usize) -> Fam {
-        Fam { name, source: Source::Profile(p), quick, thorough, max_len, enumerated: None, cfg: DiffCfg::default }
+        Fam { name, source: Source::Profile(p), quick, thorough, max_len, enumerated: None, cfg: DiffCfg::default, direct: None }
     }
     pub fn custom(name: &'static str, g: GenFn, quick: u64, thorough: u64, max_len: usize) -> Fam {
-        Fam { name, source: Source::Custom(g), quick, thorough, max_len, enumerated: None, cfg: DiffCfg::default }
+        Fam { name, source: Source::Custom(g), quick, thorough, max_len, enumerated: None, cfg: DiffCfg::default, direct: None }
     }
     pub fn generate(&self, bytes: &[u8]) -> (crate::ast::Program, Vec<&'static str>) {
         match &self.source {
@@ -216,6 +219,7 @@ impl Property for DiffProp {
             return String::from_utf8_lossy(bytes).to_string();
         }
         match self.fam(family) {
+            Some(f) if f.direct.is_some() => (f.direct.as_ref().unwrap().0)(bytes),
             Some(f) => {
                 let (prog, _) = f.generate(bytes);
                 crate::astutil::fix_lambda_names(&prog);
@@ -246,6 +250,10 @@ impl Property for DiffProp {
             Some(f) => f,
             None => return Verdict::Discard("unknown family"),
         };
+        if let Some((_, run)) = &fam.direct {
+            let bytes = ctx.bytes.to_vec();
+            return run(&bytes, ctx);
+        }
         let (prog, labels) = fam.generate(ctx.bytes);
         let d = run_diff(&prog, &[], &(fam.cfg)(), &RefCfg::default());
         for l in labels.iter() {
